@@ -95,6 +95,60 @@ RelayAddrs == {"good", "empty", "unparsable", "noscheme", "refused", "nohost", "
 (* key that is not the relay's)                                                                          *)
 RelayKeys == {"none", "set", "badpoint", "other"}
 
+(* STRATEGY KINDS AND STYLES.  Between a duty service and the beacon nodes / relays main.go puts a STRATEGY  *)
+(* that it selects by configuration (grep 'style' in main.go: select*Provider).  Every style of a kind is a   *)
+(* SIBLING IMPLEMENTATION of the same operation: it consumes the same outside data, on its own code path,      *)
+(* with its own bookkeeping (per-node goroutines, polling loops, end-of-operation reports).  The property        *)
+(* quantifies over Vouch, not over the style an operator happened to configure: every untrusted-input entry     *)
+(* point is driven for EVERY style main.go can select for it ("direct" = the default arm of the switch: the       *)
+(* client itself, no strategy).                                                                                   *)
+(*   kind (configuration key strategies.<kind>.style)   styles          consumed by (entry point)                 *)
+StrategyStyles ==
+    [builderbid                |-> {"best", "deadline"},              \* "" = best
+     beaconblockproposal       |-> {"best", "first"},                 \* (direct: the proposer entry point)
+     attestationdata           |-> {"best", "majority", "first", "direct"},
+     aggregateattestation      |-> {"best", "first", "direct"},
+     synccommitteecontribution |-> {"best", "first", "direct"},
+     beaconblockroot           |-> {"majority", "first", "direct"},
+     signedbeaconblock         |-> {"first", "direct"}]               \* "" = first: the DEFAULT is a strategy
+(* the entry points that drive a kind, and the dimension of their shapes that names the style                    *)
+DrivenBy ==
+    [builderbid                |-> {"builderbid", "execservice"},     \* the strategy alone / behind its caller, the block relay service
+     beaconblockproposal       |-> {"proposalbest"},
+     attestationdata           |-> {"attester"},
+     aggregateattestation      |-> {"aggregator"},
+     synccommitteecontribution |-> {"syncaggregator"},
+     beaconblockroot           |-> {"syncmessenger"},
+     signedbeaconblock         |-> {"cacheevents"}]
+StyleOfShape(ep, s) == IF ep \in {"builderbid", "execservice", "proposalbest"} THEN s.strat ELSE s.style
+(* (strategies.beaconblockheader.style: first | direct feeds the cache service ONCE, at start-up, with the head   *)
+(* header; the drivers hand the cache the repository's mock there - see Limits in docs/C16.md)                    *)
+StrategyKinds == DOMAIN StrategyStyles
+
+(* POLL SEQUENCES.  A strategy may ask the same relay SEVERAL TIMES within one operation (the `deadline`        *)
+(* builder-bid strategy polls every relay every bid-gap until its deadline and keeps, per relay, the first and   *)
+(* last bid and a counter for an end-of-auction report; `best` asks once).  What one relay answers to the        *)
+(* successive polls of ONE auction is a HISTORY OF UNTRUSTED INPUTS WITHIN ONE CALL: a relay that has no block     *)
+(* yet answers with a bid of value 0 (or 204) and with a real bid later; a relay whose builder withdrew           *)
+(* answers with a lower bid, with value 0, with garbage after a real bid.  A shape therefore gives the            *)
+(* answer to the first poll (bid), to the second (bid2) and to the third and every later one (bid3);              *)
+(* "same" = what the previous poll was answered.  The lattice before round 5 was the diagonal bid2 = bid3 =       *)
+(* "same".                                                                                                        *)
+(*   valid | higher | lower   well-formed, signed bids of value V, 2V, V/2 (lower: the builder withdrew)          *)
+(*   the other values as for `bid` below                                                                          *)
+PollAnswers == {"valid", "higher", "lower", "zerovalue", "nocontent", "datanull", "notjson", "http500",
+                "badsig", "wrongparent"}
+BidAtOf(b1, b2, b3, n) ==
+    LET a2 == IF b2 = "same" THEN b1 ELSE b2
+        a3 == IF b3 = "same" THEN a2 ELSE b3
+    IN  IF n <= 1 THEN b1 ELSE IF n = 2 THEN a2 ELSE a3
+(* how a strategy classifies one answer (used by the control designs in RobustnessPoll.tla)                       *)
+PollClass(a) ==
+    CASE a \in {"valid", "higher", "lower"} -> "eligible"
+      [] a = "zerovalue" -> "zero"                                   \* a well-formed bid whose value is 0
+      [] a \in {"zerofee", "wrongparent", "badsig"} -> "ineligible"  \* a bid with a value that fails a later check
+      [] OTHER -> "nodata"                                           \* 204, an error of the client, no bid object
+
 (* (a) blockrelay.UnmarshalJSON alone on a whole-document shape, then - if it accepted - the lookups  *)
 (* every user of the decoded configuration performs                                                   *)
 ExecDoc == [doc : DocShapes]
@@ -113,10 +167,26 @@ ExecDoc == [doc : DocShapes]
 (*  addr    the relay address written in a valid document (only varied for valid documents: relay       *)
 (*          address strings -> registration round and auction)                                          *)
 (*  pk      "public_key" of the relay in a valid version 2 document: RelayKeys                          *)
+(*  strat   the builder-bid strategy main.go wired behind the service: best | deadline                  *)
+(*  bid, bid2, bid3  what the relay answers to the first, second, third and later poll of the auction    *)
+(*          (PollAnswers; see POLL SEQUENCES above)                                                      *)
 ExecService ==
-    [doc : DocShapes \cup {"missing"}, source : {"file", "http"}, prior : {"none", "v2", "v1"}, addr : {"good"}, pk : {"none"}]
-    \cup [doc : {"valid2", "valid1"}, source : {"file"}, prior : {"none"}, addr : RelayAddrs, pk : {"none"}]
-    \cup [doc : {"valid2"}, source : {"file", "http"}, prior : {"none"}, addr : {"good"}, pk : RelayKeys]
+    LET E(doc, source, prior, addr, pk, strat, b1, b2, b3) ==
+            [doc : doc, source : source, prior : prior, addr : addr, pk : pk, strat : strat, bid : b1, bid2 : b2, bid3 : b3]
+        one == {"valid"}  same == {"same"}  best == {"best"}
+        \* what the relay answers to the successive polls of the auction the service runs (bid, bid2, bid3)
+        seqs == {<<"zerovalue", "valid", "same">>, <<"valid", "zerovalue", "same">>, <<"valid", "lower", "same">>,
+                 <<"nocontent", "valid", "higher">>, <<"notjson", "valid", "same">>, <<"zerovalue", "same", "same">>,
+                 <<"valid", "notjson", "zerovalue">>}
+    IN  E(DocShapes \cup {"missing"}, {"file", "http"}, {"none", "v2", "v1"}, {"good"}, {"none"}, best, one, same, same)
+        \cup E({"valid2", "valid1"}, {"file"}, {"none"}, RelayAddrs, {"none"}, best, one, same, same)
+        \cup E({"valid2"}, {"file", "http"}, {"none"}, {"good"}, RelayKeys, best, one, same, same)
+        \* the SIBLING strategy behind the same service (strategies.builderbid.style: deadline): documents ...
+        \cup E({"valid2", "valid1", "null", "emptyobj", "missing", "truncated"}, {"file"}, {"none", "v2"}, {"good"}, {"none"},
+               {"deadline"}, one, same, same)
+        \cup E({"valid2"}, {"file"}, {"none"}, RelayAddrs, {"none"}, {"deadline"}, one, same, same)
+        \* ... and poll sequences of the relay within the auction, for both strategies
+        \cup UNION {E({"valid2"}, {"file"}, {"none"}, {"good"}, {"none", "set"}, {"best", "deadline"}, {q[1]}, {q[2]}, {q[3]}) : q \in seqs}
 
 (* AUXILIARY REQUESTS.  While it handles an operator-supplied TEMPLATE the code asks its surroundings   *)
 (* for the values of the markers.  The markers the code knows (grep '{{'): {{SLOT}} and                *)
@@ -185,17 +255,34 @@ Graffiti ==
 (*  second  a second relay in the same auction: none | good (well-behaved) | samekey (a second relay    *)
 (*          that is configured with the SAME public key as the first: relays are asked in parallel)    *)
 (*  pkcfg   relay public key in the proposer configuration: RelayKeys                                  *)
+(*  bid2, bid3  what the relay answers to the second / to the third and every later poll of the SAME     *)
+(*          auction: same | PollAnswers (POLL SEQUENCES above; bid is the answer to the first poll)       *)
 BuilderBid ==
-    LET full == [strat : {"best", "deadline"},
-                 addr : RelayAddrs,
-                 bid : {"valid", "nocontent", "datanull", "emptyobj", "nomessage", "noheader", "zerovalue",
-                        "wrongparent", "badversion", "notjson", "http500", "zerofee", "badsig"},
-                 second : {"none", "good", "samekey"},
-                 pkcfg : RelayKeys]
+    LET B(strat, addr, b1, b2, b3, second, pkcfg) ==
+            [strat : strat, addr : addr, bid : b1, bid2 : b2, bid3 : b3, second : second, pkcfg : pkcfg]
+        full == B({"best", "deadline"}, RelayAddrs,
+                  {"valid", "nocontent", "datanull", "emptyobj", "nomessage", "noheader", "zerovalue",
+                   "wrongparent", "badversion", "notjson", "http500", "zerofee", "badsig"},
+                  {"same"}, {"same"}, {"none", "good", "samekey"}, RelayKeys)
         keyed(s) == s.addr \in {"keyed", "badkeyed", "shortkeyed"}
-    IN  {s \in full : /\ (s.addr # "good" => s.bid = "valid" /\ s.pkcfg = "none")
+        good == {"good"}  none == {"none"}  same == {"same"}
+        \* sequences of three different classes: nothing / zero / real in every order that a relay which is
+        \* building, has built, lost its builder can produce, and garbage in between
+        triples == {<<"zerovalue", "valid", "higher">>, <<"nocontent", "zerovalue", "valid">>, <<"valid", "zerovalue", "valid">>,
+                    <<"valid", "higher", "lower">>, <<"zerovalue", "zerovalue", "valid">>, <<"valid", "notjson", "higher">>,
+                    <<"http500", "valid", "zerovalue">>, <<"lower", "valid", "higher">>, <<"badsig", "zerovalue", "valid">>,
+                    <<"valid", "datanull", "nocontent">>}
+    IN  \* the diagonal: the relay answers every poll alike
+        {s \in full : /\ (s.addr # "good" => s.bid = "valid" /\ s.pkcfg = "none")
                       /\ (s.pkcfg # "none" => s.bid \in {"valid", "badsig", "nomessage"})
                       /\ (s.second = "samekey" => (s.pkcfg \in {"set", "badpoint"} \/ keyed(s)) /\ s.bid = "valid")}
+        \* every PAIR of different answers to the first and to the later polls, for the strategy that polls ...
+        \cup {s \in B({"deadline"}, good, PollAnswers, PollAnswers, same, none, none) : s.bid # s.bid2}
+        \* ... the triples, alone and next to a second, well-behaved relay that is polled in parallel, with and
+        \* without a configured relay key ...
+        \cup UNION {B({"deadline"}, good, {q[1]}, {q[2]}, {q[3]}, {"none", "good"}, {"none", "set"}) : q \in triples}
+        \* ... and for the strategy that asks once (the rest of the sequence is never requested)
+        \cup {s \in B({"best"}, good, {"zerovalue", "valid"}, {"valid", "zerovalue", "notjson"}, same, none, none) : s.bid # s.bid2}
 
 (* proposal strategies (strategies/beaconblockproposal/{best,first}.Proposal); the entry point keeps   *)
 (* its name "proposalbest"                                                                          *)
@@ -266,35 +353,43 @@ Proposer ==
 (*  slot   slot of the duty: "0" | "1" | "64"                                                      *)
 (*  duty   one | dup (the same validator twice) | zerolen (committee length 0) | vcirange          *)
 (*         (validator committee index >= committee length) | many | noaccount                      *)
+(* SEVERAL NODES.  With a strategy between the duty service and the beacon nodes (style # direct) the data of   *)
+(* ONE duty comes from SEVERAL nodes, asked in parallel goroutines of the strategy: the answers of the nodes are,  *)
+(* like the polls of a relay, several untrusted inputs within one call.  Node 0 answers `body`; a second node      *)
+(* answers `node1`: valid | same (what node 0 answers) | an HTTP error (none: style direct, one node).               *)
 Attester ==
-    [body : {"valid", "datanull", "emptyobj", "nosource", "notarget", "nullsource", "nulltarget",
-             "slotmismatch", "srcgttgt", "notjson", "http500", "http404"},
-     slot : {"0", "1", "64"},
-     duty : {"one", "dup", "zerolen", "vcirange", "many", "noaccount"}]
+    LET bodies == {"valid", "datanull", "emptyobj", "nosource", "notarget", "nullsource", "nulltarget",
+                   "slotmismatch", "srcgttgt", "notjson", "http500", "http404"}
+        A(body, slot, duty, style, node1) == [body : body, slot : slot, duty : duty, style : style, node1 : node1]
+    IN  A(bodies, {"0", "1", "64"}, {"one", "dup", "zerolen", "vcirange", "many", "noaccount"}, {"direct"}, {"none"})
+        \cup A(bodies, {"0", "64"}, {"one"}, StrategyStyles.attestationdata \ {"direct"}, {"valid", "same", "http500"})
 
 (* attestation aggregator (services/attestationaggregator/standard.Aggregate)                      *)
 (*  body   valid | datanull | emptyobj | nullinner (aggregate without data) | emptybits |          *)
 (*         nobits | notjson | http404                                                              *)
 Aggregator ==
-    [body : {"valid", "datanull", "emptyobj", "nullinner", "emptybits", "nobits", "notjson", "http404"},
-     slot : {"0", "1", "64"},
-     account : {"present", "missing"}]
+    LET bodies == {"valid", "datanull", "emptyobj", "nullinner", "emptybits", "nobits", "notjson", "http404"}
+    IN  [body : bodies, slot : {"0", "1", "64"}, account : {"present", "missing"}, style : {"direct"}, node1 : {"none"}]
+        \cup [body : bodies, slot : {"64"}, account : {"present"}, style : StrategyStyles.aggregateattestation \ {"direct"},
+              node1 : {"valid", "same", "http404"}]
 
 (* sync committee messenger (Prepare / Message) with the head root through the HTTP decoder        *)
 (*  body     valid | datanull | emptyobj | noroot | notjson | http404                              *)
 (*  accounts all | somenil | allnil | none                                                         *)
 SyncMessenger ==
-    [body : {"valid", "datanull", "emptyobj", "noroot", "notjson", "http404"},
-     accounts : {"all", "somenil", "allnil", "none"},
-     slot : {"0", "1", "64"}]
+    LET bodies == {"valid", "datanull", "emptyobj", "noroot", "notjson", "http404"}
+    IN  [body : bodies, accounts : {"all", "somenil", "allnil", "none"}, slot : {"0", "1", "64"}, style : {"direct"}, node1 : {"none"}]
+        \cup [body : bodies, accounts : {"all"}, slot : {"64"}, style : StrategyStyles.beaconblockroot \ {"direct"},
+              node1 : {"valid", "same", "http404"}]
 
 (* sync committee aggregator (Aggregate) with the contribution through the HTTP decoder            *)
 (*  body   valid | datanull | emptyobj | emptybits | nobits | notjson | http404                    *)
 (*  root   known (the messenger recorded a head root for the slot) | unknown                       *)
 SyncAggregator ==
-    [body : {"valid", "datanull", "emptyobj", "emptybits", "nobits", "notjson", "http404"},
-     root : {"known", "unknown"},
-     slot : {"0", "1", "64"}]
+    LET bodies == {"valid", "datanull", "emptyobj", "emptybits", "nobits", "notjson", "http404"}
+    IN  [body : bodies, root : {"known", "unknown"}, slot : {"0", "1", "64"}, style : {"direct"}, node1 : {"none"}]
+        \cup [body : bodies, root : {"known"}, slot : {"64"}, style : StrategyStyles.synccommitteecontribution \ {"direct"},
+              node1 : {"valid", "same", "http404"}]
 
 (* attester duties as delivered by the HTTP decoder -> attester.MergeDuties -> Attest              *)
 (*  n      number of duties: "0" | "1" | "3"                                                       *)
@@ -313,11 +408,17 @@ MergeDuties ==
 (*  event  head | block | nildata (event without data)                                             *)
 (*  ver    version of the block                                                                    *)
 (*  body   valid | datanull | nomessage | nobody | nopayload | notjson | http404                   *)
+(*  style  the signed beacon block provider main.go hands the cache: first (the default) | direct   *)
+(*  node1  what the second node of the strategy answers (SEVERAL NODES above)                        *)
 CacheEvents ==
     LET full == [event : {"head", "block", "nildata"},
                  ver : {"phase0", "altair", "bellatrix", "capella", "deneb", "unknown"},
-                 body : {"valid", "datanull", "nomessage", "nobody", "nopayload", "notjson", "http404"}]
-    IN  {s \in full : s.event # "head" => s.ver = "deneb" /\ s.body = "valid"}
+                 body : {"valid", "datanull", "nomessage", "nobody", "nopayload", "notjson", "http404"},
+                 style : {"direct"}, node1 : {"none"}]
+        strat == [event : {"head", "block", "nildata"}, ver : {"phase0", "deneb", "unknown"},
+                  body : {"valid", "datanull", "nomessage", "nobody", "nopayload", "notjson", "http404"},
+                  style : {"first"}, node1 : {"valid", "same", "http404"}]
+    IN  {s \in full \cup strat : s.event # "head" => s.ver = "deneb" /\ s.body = "valid" /\ s.node1 \in {"none", "valid"}}
 
 (* submitter error classification (services/submitter/multinode, error text of a beacon node)      *)
 (*  op     messages | contributions | attestations                                                 *)
@@ -347,6 +448,10 @@ Shapes(ep) ==
       [] ep = "mergeduties" -> MergeDuties
       [] ep = "cacheevents" -> CacheEvents
       [] ep = "submitclassify" -> SubmitClassify
+
+(* every style main.go can select for a kind is driven, by every entry point that consumes the kind's data       *)
+ASSUME \A k \in StrategyKinds : \A st \in StrategyStyles[k] : \A ep \in DrivenBy[k] :
+            \E s \in Shapes(ep) : StyleOfShape(ep, s) = st
 
 (* Gated shapes: the binding itself has to ask a library decoder for the value before it can call *)
 (* Vouch (attester duties are fetched by the driver and handed to MergeDuties, as the controller   *)
@@ -384,5 +489,15 @@ AuxRequests(ep, s) ==
       [] ep = "graffiti" -> NodeClientAt("node0", s.nodeclient)
       [] OTHER -> {}
 AuxUniverse == [req : {"nodeclient"}, at : {"node0", "node1"}, answer : AuxAnswers]
+
+(* The POLLS an input may be answered: relay r's answer to the n-th request of the call (n = 1, 2, 3; every    *)
+(* later one is answered like the third).  relay1 follows the sequence of the shape, relay2 (the second,         *)
+(* well-behaved relay) always answers with a valid bid.  Whether, when and how often the code polls is the        *)
+(* code's business (best: once per relay and auction, deadline: every bid-gap until the deadline).                *)
+Polled(ep) == ep \in {"builderbid", "execservice"}
+Relays == {"relay1", "relay2"}
+PollAnswer(ep, s, r, n) ==
+    IF r = "relay2" THEN "valid" ELSE BidAtOf(s.bid, s.bid2, s.bid3, n)
+PollUniverse == PollAnswers \cup {"emptyobj", "nomessage", "noheader", "badversion", "zerofee"}
 
 =============================================================================
